@@ -26,7 +26,7 @@ class NotAPosition(Exception):
 def span_replay(res):
     corpus = [b"  abc  ", b"\n (a \"b\" #\\c)\n", b"'x y", b"#(1 2) ;c\n 3", b"(a . b)", b"#u8(1 2) z", b"`(,a ,@b) ", b"  \xce\xbb (\xce\xbb)",
               b"'  x", b",@  (a  b)", b"`   x", b"( '  x  ,  y )", b"#( a   'b )", b"(a   .   b)", b"  ''  x",
-              b"(\"ab\ncd\" x)", b"#u8(1\n 2) y", b"(a\n \"s\nt\"\n b)", b"\"x\ny\nz\" w"]
+              b",@xs", b"(a ,@b)", b"(\"ab\ncd\" x)", b"#u8(1\n 2) y", b"(a\n \"s\nt\"\n b)", b"\"x\ny\nz\" w"]
 
     def walk(sp):
         yield sp
@@ -66,6 +66,9 @@ def span_replay(res):
                         if not piece.strip() or piece != piece.strip():
                             return {"replayed": True, "observed": {"span": [sp["s"], sp["e"]], "covers": piece.decode("latin-1")}, "witness": w}
                         if piece in (b"'", b"`", b",", b",@"):
+                            a0 = starts[l1 - 1] + c1
+                            if piece == b"," and text[a0:a0 + 2] == b",@":
+                                return {"replayed": True, "observed": {"span": [sp["s"], sp["e"]], "covers": ",", "problem": "the head of `,@` covers only the comma"}, "witness": w}
                             continue
                         one = RP.single(piece, "default", "slice")
                         if "err" in one:
